@@ -24,6 +24,9 @@ mod subcommands;
 
 mod tests;
 
+#[cfg(dandavison_delta_verif)]
+mod verif_hooks;
+
 use std::ffi::{OsStr, OsString};
 use std::io::{self, BufRead, Cursor, ErrorKind, IsTerminal, Write};
 use std::process::{self, Command, Stdio};
@@ -58,6 +61,10 @@ pub mod errors {
 
 #[cfg(not(tarpaulin_include))]
 fn main() -> std::io::Result<()> {
+    #[cfg(dandavison_delta_verif)]
+    if verif_hooks::driver_requested() {
+        verif_hooks::run_driver();
+    }
     // Do this first because both parsing all the input in `run_app()` and
     // listing all processes takes about 50ms on Linux.
     // It also improves the chance that the calling process is still around when
